@@ -351,7 +351,7 @@ func replay(args []string) {
 		wg.Add(1)
 		go func(wk int) {
 			defer wg.Done()
-			wd := vh.NewWatchdog(30*time.Second, out, vh.M{"engine": "views"})
+			wd := vh.NewWatchdog(180*time.Second, out, vh.M{"engine": "views"})
 			local := map[string]int{}
 			lops := map[string]int{}
 			tmp := filepath.Join(scratch, fmt.Sprintf("w%d", wk))
